@@ -84,6 +84,7 @@ type pathCtx struct {
 	lits          map[string]string // string literal -> atom constant
 	litOrder      []string
 	atomStrUsed   bool
+	hangCheck     bool
 	atomTerms     []string // atom-valued terms whose model class is needed for the tape (UF results)
 }
 
